@@ -13,16 +13,36 @@ import xml.etree.ElementTree as ET
 
 
 def run(repo='/repo'):
+    """One full run (per-test timeout 120 s); stable tests that did not pass
+    are run once more on their own - the suite has Timer-based tests that
+    fail or hang when the machine is loaded."""
     base = json.load(open('/root/.vp/BASELINE.json'))
     stable = set(base['stable_pass'])
+    passed, tail = run_once(repo, [])
+    missing = sorted(stable - passed)
+    if missing and len(missing) <= 60:
+        ids = []
+        for m in missing:
+            cls, name = m.split('::', 1)
+            parts = cls.split('.')
+            ids.append('::'.join(['/'.join(parts[:2]) + '.py'] + parts[2:]
+                                 + [name]))
+        again, tail2 = run_once(repo, ids)
+        passed |= again
+        tail += '\n[re-run of %d tests] ' % len(ids) + tail2[-200:]
+    missing = sorted(stable - passed)
+    return missing, len(passed), tail
+
+
+def run_once(repo, ids):
     fd, xml = tempfile.mkstemp(suffix='.xml', prefix='junit_', dir='/var/tmp')
     os.close(fd)
     env = dict(os.environ)
     env.pop('NFCPY_VERIF', None)
     env['PYTHONPATH'] = os.path.join(repo, 'src')
     cmd = ['/venv/bin/python', '-m', 'pytest', '-q', '-p', 'no:cacheprovider',
-           '--timeout=900', '--continue-on-collection-errors',
-           '--junitxml=' + xml]
+           '--timeout=120', '--continue-on-collection-errors',
+           '--junitxml=' + xml] + list(ids)
     p = subprocess.run(cmd, cwd=repo, env=env, stdout=subprocess.PIPE,
                        stderr=subprocess.STDOUT, text=True)
     passed = set()
@@ -32,8 +52,7 @@ def run(repo='/repo'):
                 passed.add('%s::%s' % (tc.get('classname'), tc.get('name')))
     finally:
         os.unlink(xml)
-    missing = sorted(stable - passed)
-    return missing, len(passed), p.stdout[-400:]
+    return passed, p.stdout[-400:]
 
 
 if __name__ == '__main__':
